@@ -10,15 +10,16 @@ def _is_must_panic(name):
     return name.endswith('_oob')
 
 
-def kani_group(label, names, complete, tier='quick', timeout=600):
+def kani_group(label, names, complete, tier='quick', timeout=600, kind='hex'):
     """A group of Kani harnesses. complete=True: loop-free over the full domain => counted as discharged
     obligations; complete=False: bounded stand-in, reported, never counted as proved."""
 
     def run(ctx):
         import check  # late import (module cycle)
-        base = check.load_json(check.BASELINE, {}).get('K_hex', [])
+        K = 'K_' + kind
+        base = check.load_json(check.BASELINE, {}).get(K, [])
         try:
-            res = kanirun.run_harnesses(ctx.repo, names, timeout=timeout, use_cache=ctx.use_cache or ctx.freeze)
+            res = kanirun.run_harnesses(ctx.repo, names, timeout=timeout, use_cache=ctx.use_cache or ctx.freeze, kind=kind)
         except Exception as e:  # extraction problem, lost anchor ...
             ctx.undecided.append('kani(%s): %s' % (label, e))
             return dict(obligations=0, discharged=0, kind='kani', complete=complete)
@@ -28,7 +29,7 @@ def kani_group(label, names, complete, tier='quick', timeout=600):
         for n in names:
             r = res[n]
             v = kanirun.verdict(r, _is_must_panic(n))
-            oid = 'K_hex/' + n.replace('harness::', '')
+            oid = K + '/' + n.replace('harness::', '')
             ob += 1
             solver += r.get('solver_s') or 0
             rows.append(dict(obligation=oid, verdict=v, checks=r.get('checks'), solver_s=r.get('solver_s'),
@@ -36,17 +37,17 @@ def kani_group(label, names, complete, tier='quick', timeout=600):
             if v == 'pass':
                 ok += 1
                 if ctx.freeze:
-                    ctx.freeze_k.setdefault('K_hex', []).append(oid)
+                    ctx.freeze_k.setdefault(K, []).append(oid)
             elif v == 'undecided':
                 ctx.undecided.append('kani harness %s: %s %s' % (n, r['status'], (r.get('tail') or '')[-300:]))
             else:
                 if oid not in base:
                     ctx.undecided.append('kani harness %s fails but was never in the baseline' % n)
                     continue
-                rp = kani_replay(ctx, n, r)
+                rp = kani_replay(ctx, n, r, kind)
                 ctx.violations.append((oid, rp[0], rp[1]))
         ctx.solver_ms += int(solver * 1000)
-        cmd = 'cargo kani -Z stubbing --harness <name> --exact   (crate build/kani_hex, includes %s/src/hex.rs by #[path])' % ctx.repo
+        cmd = 'cargo kani -Z stubbing --harness <name> --exact   (crate build/kani_%s, includes %s/src/%s.rs by #[path])' % (kind, ctx.repo, 'hex' if kind == 'hex' else 'label')
         if cmd not in ctx.checker_cmds:
             ctx.checker_cmds.append(cmd)
         return dict(obligations=ob, discharged=ok, kind='kani', complete=complete,
@@ -56,25 +57,25 @@ def kani_group(label, names, complete, tier='quick', timeout=600):
     return dict(name=label, run=run, tier=tier, counts_as_proof=complete)
 
 
-def kani_replay(ctx, name, r):
+def kani_replay(ctx, name, r, kind='hex'):
     """Concrete playback of a failing harness, then run the generated test natively against the real hex.rs."""
     os.makedirs(os.path.join(VERIF, 'replays'), exist_ok=True)
-    p = os.path.join(VERIF, 'replays', '%s-K_hex_%s.txt' % (ctx.pid, re.sub(r'\W+', '_', name)))
-    text = ['property: %s' % ctx.pid, 'failed obligation: K_hex/%s' % name.replace('harness::', ''),
+    p = os.path.join(VERIF, 'replays', '%s-K_%s_%s.txt' % (ctx.pid, kind, re.sub(r'\W+', '_', name)))
+    text = ['property: %s' % ctx.pid, 'failed obligation: K_%s/%s' % (kind, name.replace('harness::', '')),
             'verifier: Kani 0.68.0 / CBMC 6.11', 'command: %s' % r.get('cmd'), 'failed checks:']
     for fc in r.get('failed_checks', []):
         text.append('  %s  (%s:%s)' % (fc[0], fc[1], fc[2]))
     has_input = False
     try:
-        pb = kanirun.playback(ctx.repo, name)
+        pb = kanirun.playback(ctx.repo, name, kind=kind)
         t = pb.get('playback_test') or ''
         if t.strip():
             text += ['', '--- counterexample (Kani concrete playback) ---', t]
             vals = kanirun.decode_playback(t)
             if vals:
                 text += ['concrete bytes per kani::any() call, in order: %s' % vals]
-            rr = kanirun.run_playback_natively(ctx.repo, name, t)
-            text += ['', '--- replay against the real src/hex.rs (native build, no verifier) ---', rr['summary']]
+            rr = kanirun.run_playback_natively(ctx.repo, name, t, kind=kind)
+            text += ['', '--- replay against the real source file (native build, no verifier) ---', rr['summary']]
             has_input = rr['reproduced']
         else:
             text += ['', 'Kani produced no concrete playback test', pb.get('raw_tail', '')[-1500:]]
